@@ -266,8 +266,21 @@ def affine_maps(draw, max_stretch=4.0):
 
 
 @st.composite
+def displacements(n_nodes, step=None):
+    """n_nodes displacement vectors, |component| <= PERT_MAX.  With ``step`` the components are integer multiples of it
+    (either exactly zero or at least ``step``): no node is *almost* in the plane of its neighbours, so a triangulation of the
+    nodes has no simplices flatter than ``step``."""
+    if step is None:
+        comp = st.floats(-PERT_MAX, PERT_MAX)
+    else:
+        kmax = int(PERT_MAX / step)
+        comp = st.integers(-kmax, kmax).map(lambda k: k * step)
+    return st.lists(st.lists(comp, min_size=3, max_size=3), min_size=n_nodes, max_size=n_nodes)
+
+
+@st.composite
 def block_meshes(draw, kinds=("hex",), row_modes=("blocks",), max_cells=27, want_interior=False,
-                 max_stretch=4.0, nmax=3):
+                 max_stretch=4.0, nmax=3, pert_step=None):
     kind = draw(st.sampled_from(list(kinds)))
     if want_interior and draw(st.integers(0, 3)) > 0:
         n = [draw(st.integers(2, nmax)) for _ in range(3)]
@@ -294,7 +307,7 @@ def block_meshes(draw, kinds=("hex",), row_modes=("blocks",), max_cells=27, want
     if draw(st.integers(0, 3)) == 0:
         pert = []
     else:
-        pert = draw(st.lists(st.lists(st.floats(-PERT_MAX, PERT_MAX), min_size=3, max_size=3), min_size=N, max_size=N))
+        pert = draw(displacements(N, pert_step))
     aff = draw(affine_maps(max_stretch))
     nid = draw(id_maps(N))
     eid = draw(id_maps(E))
